@@ -182,6 +182,10 @@ def factory() -> CtlProperty:
     return PROP
 
 
+def burst_factory() -> CtlProperty:
+    return PROP.as_burst()
+
+
 LISTENER_SCRIPTS = tuple((ev, n, op) for ev in ('running', 'waiting', 'paused', 'played')
                          for n in (1, 2) for op in (('pause',), ('play',)))
 
@@ -217,7 +221,17 @@ def run_check(tier: str, seed: int, workers: Any) -> Dict[str, Any]:
     part3 = runner.run_explorer(
         factory, (), tiny, deep, seed, workers,
         rule=f'the three smallest programs with <= {deep["K"]} requests', assumptions=[], bounds=deep, describe=describe_unit)
-    out = runner.merge([part1, part2, part3])
+    # bursts: long sequences at few places - up to N requests right behind one another wherever the loop is quiescent
+    nb = 4 if tier == 'quick' else 5
+    burst_units = [((('S', (), 'wait'), ('S', (), 'ret')), None), ((('Y1', (), 'wait'), ('S', (), 'ret')), None)][:1 if tier == 'quick' else 2]
+    part_b = runner.run_explorer(
+        burst_factory, (), burst_units, {'K': nb}, seed, workers, split_depth=3,
+        rule=f'bursts: every sequence of <= {nb} requests from ' + repr(ALPHABET) + ' issued right behind one another wherever the '
+             'loop is quiescent, on the smallest waiting programs', assumptions=[], bounds={'K': nb, 'placements': 'quiescent points only'},
+        describe=describe_unit)
+    for v in part_b['violations']:
+        v['features'] = dict(v.get('features', {}), part='burst')
+    out = runner.merge([part1, part2, part3, part_b])
     from ..explore import guarded_part
     part4 = guarded_part(check_restored_pause, 240, {'part': 'restored-pause'})
     out['violations'].extend(part4['violations'])
@@ -281,4 +295,6 @@ def replay(doc: Dict[str, Any]) -> List[Dict[str, Any]]:
     from ..cli import to_tuple
     if is_wc_unit(to_tuple(doc['unit'])):
         return wc_factory().replay(doc)
+    if (doc.get('features') or {}).get('part') == 'burst':
+        return burst_factory().replay(doc)
     return PROP.replay(doc)
